@@ -76,6 +76,19 @@ class Parsed(object):
         self.msg = None
         self.vendor = None
         self.hdrlen = None
+        self.pins = []          # [(index, value)] length octets pinned to plain ints
+
+
+def pin(v, hi):
+    """v itself, but as a plain int when it lies in 0..hi.  Under symbolic execution this
+    forks once per feasible value, so that a length octet that is about to be used as a
+    slice bound is a concrete number on each path (a symbolic slice bound leaves a buffer of
+    symbolic *length* behind, on which every further operation costs hundreds of queries).
+    On plain ints it is the identity."""
+    for k in range(hi + 1):
+        if v == k:
+            return k
+    return v
 
 
 def _forbid(p, why):
@@ -115,10 +128,11 @@ def npci_parse(data):
         if n < pos + 3:
             return _forbid(p, 'truncated')
         p.dnet = data[pos] * 256 + data[pos + 1]
-        p.dlen = data[pos + 2]
+        p.dlen = pin(data[pos + 2], n - pos - 3)
         pos += 3
         if n < pos + p.dlen:
             return _forbid(p, 'truncated')
+        p.pins.append((pos - 1, p.dlen))
         p.dadr = data[pos:pos + p.dlen]
         pos += p.dlen
         if p.dnet == 0:
@@ -129,10 +143,11 @@ def npci_parse(data):
         if n < pos + 3:
             return _forbid(p, 'truncated')
         p.snet = data[pos] * 256 + data[pos + 1]
-        p.slen = data[pos + 2]
+        p.slen = pin(data[pos + 2], n - pos - 3)
         pos += 3
         if n < pos + p.slen:
             return _forbid(p, 'truncated')
+        p.pins.append((pos - 1, p.slen))
         p.sadr = data[pos:pos + p.slen]
         pos += p.slen
         if p.snet == 0xFFFF:
